@@ -19,12 +19,13 @@ def tables(tier, seed):
         load[w] += shipped.n_triples(kind, kw)
         jobs[w][0].append({"op": "shippedtab", "id": f"g{i}", "target": shipped.T[kind], "kwargs": kw, "model_args": margs, "_kind": kind})
     # twins: same class and structural parameters, other real-valued cost / price coefficients, built in the same process right after their base
-    for (bi, kind, kw2, margs2) in shipped.twins(g, seed):
+    for (bi, kind, kw2, margs2, mut) in shipped.twins(g, seed):
         for ops, _ in jobs:
             pos = next((k for k, o in enumerate(ops) if o["id"] == f"g{bi}"), None)
             if pos is not None:
                 n_tw = sum(1 for o in ops if o["id"].startswith(f"g{bi}t"))
-                ops.insert(pos + 1 + n_tw, {"op": "shippedtab", "id": f"g{bi}t{n_tw}", "target": shipped.T[kind], "kwargs": kw2, "model_args": margs2, "_kind": kind, "_twin": True})
+                ops.insert(pos + 1 + n_tw, {"op": "shippedtab", "id": f"g{bi}t{n_tw}", "target": shipped.T[kind], "kwargs": kw2, "model_args": margs2, "_kind": kind, "_twin": True,
+                                                 **({"config_then_mutate": mut} if mut else {})})
     jobs = [j for j in jobs if j[0]]
     return jobs, session.run_sessions_parallel(jobs, workers=W)
 
@@ -55,7 +56,7 @@ def run(tier, seed):
             res.evaluations += ntr
             res.count(f"{kind}:params"); res.count(f"{kind}:triples", ntr)
             if op.get("_twin"):
-                res.count(f"{kind}:twin-other-coefficients")
+                res.count(f"{kind}:twin-" + ("config-mutated-after-construction" if op.get("config_then_mutate") else "other-coefficients"))
             if kw.get("max_useful_life", 1) > 1 or kw.get("lead_time", 1) > 1:
                 res.nontrivial.add(line)
             case = {"kind": kind, "kwargs": kw, "model_args": op["model_args"]}
